@@ -144,6 +144,23 @@ impl TcpChannelTask {
         }
     }
 
+    // e.g. a TLS handshake: requests keep failing fast and disable/shutdown are honoured
+    // while it lasts, even if the peer stalls in the middle of it
+    async fn establish(
+        &mut self,
+        stream: TcpStream,
+    ) -> Result<Result<PhysLayer, std::io::Error>, StateChange> {
+        tokio::select! {
+            biased;
+            res = self.connection_handler.handle(stream, &self.host) => {
+                Ok(res)
+            }
+            res = self.client_loop.fail_requests() => {
+                Err(res)
+            }
+        }
+    }
+
     async fn try_connect_and_run(&mut self) -> Result<(), StateChange> {
         self.listener.update(ClientState::Connecting).get().await;
         match self.connect().await? {
@@ -156,7 +173,7 @@ impl TcpChannelTask {
                 if let Err(err) = stream.set_nodelay(true) {
                     tracing::warn!("unable to enable TCP_NODELAY: {}", err);
                 }
-                match self.connection_handler.handle(stream, &self.host).await {
+                match self.establish(stream).await? {
                     Err(err) => self.handle_failed_connection(err).await,
                     Ok(phys) => self.run_connection(phys).await,
                 }
